@@ -105,6 +105,9 @@ pub struct Stats {
     pub relations_both_ok: u64,
     pub nonvacuous: u64,
     pub max_steps: u64,
+    /// largest (allocations during one call) / (alloc_bound of its input), in 1/1000
+    pub max_alloc_permille: u64,
+    pub max_alloc_bytes: u64,
     pub capped: bool,
     pub outcome_digest: u64,
     pub samples: Vec<Value>,
@@ -128,6 +131,8 @@ impl Stats {
         self.relations_both_ok += o.relations_both_ok;
         self.nonvacuous += o.nonvacuous;
         self.max_steps = self.max_steps.max(o.max_steps);
+        self.max_alloc_permille = self.max_alloc_permille.max(o.max_alloc_permille);
+        self.max_alloc_bytes = self.max_alloc_bytes.max(o.max_alloc_bytes);
         self.capped |= o.capped;
         self.outcome_digest = self.outcome_digest.wrapping_add(o.outcome_digest);
         for s in &o.samples {
@@ -149,7 +154,7 @@ impl Stats {
             "panics": self.panics, "budget_exceeded": self.budgets, "unspecified": self.unspecified,
             "value_not_compared": self.skipped_value, "closed_by_pruning": self.closed,
             "relation_instances": self.relations, "relation_instances_both_ok": self.relations_both_ok,
-            "non_vacuity_counter": self.nonvacuous, "max_steps_seen": self.max_steps,
+            "non_vacuity_counter": self.nonvacuous, "max_steps_seen": self.max_steps, "max_alloc_bytes_in_one_call": self.max_alloc_bytes, "max_alloc_permille_of_bound": self.max_alloc_permille,
             "cap_hit": self.capped, "outcome_digest": format!("{:016x}", self.outcome_digest),
             "extra": self.extra,
         })
